@@ -246,7 +246,7 @@ CORPUS = [
 
 def chunks(tier, seed):
     rng = random.Random(seed)
-    n = 1500 if tier == "thorough" else 220
+    n = 3000 if tier == "thorough" else 600
     size = 12
     cases = []
     for i in range(n):
